@@ -1262,3 +1262,11 @@ TABLE["C19"] += [
     # the renderer alone is not reached while parsing: parse cost (this property) is unaffected
     N("types-rendered-twice-per-level-outside-parsing", _TO_CPP_TWICE),
 ]
+TABLE["C12"] += [
+    N("comment-skipper-as-alternation-of-the-two-forms",
+      (IP + "module.py", "from pyparsing import (ParseResults, ZeroOrMore,  # type: ignore\n                       cppStyleComment, stringEnd)", "from pyparsing import (ParseResults, ZeroOrMore,  # type: ignore\n                       cStyleComment, dblSlashComment, stringEnd)"),
+      (IP + "module.py", "rule.ignore(cppStyleComment)", "rule.ignore(cStyleComment | dblSlashComment)")),
+    B("comment-skipper-block-comments-only", {"L1"},
+      (IP + "module.py", "from pyparsing import (ParseResults, ZeroOrMore,  # type: ignore\n                       cppStyleComment, stringEnd)", "from pyparsing import (ParseResults, ZeroOrMore,  # type: ignore\n                       cStyleComment, stringEnd)"),
+      (IP + "module.py", "rule.ignore(cppStyleComment)", "rule.ignore(cStyleComment)")),
+]
